@@ -248,11 +248,13 @@ theorem holderFind_pair {rc rs : Nat} {newPop sim : Id} {h h' : Heap} {e e' : Va
 /-! ## hypotheses of the property theorems, and how to check them on a concrete heap -/
 
 /-- what is assumed of the simulation that gets cloned: its region is closed (everything it reaches is its
-own), `persons` is the population listed under the person entity, and that population has no `members` -/
+own), `persons` is the population listed under the person entity, that population has no `members` and is
+bound to the simulation -/
 structure WellFormed (h : Heap) (s : Id) : Prop where
   closed : Closed s.reg h
   listed : ∀ so, h.get? s = some (.sim so) → alGet so.pops 0 = some so.persons
   plain : ∀ so po m, h.get? s = some (.sim so) → h.get? so.persons = some (.pop po) → po.members = some m → False
+  bound : ∀ so po, h.get? s = some (.sim so) → h.get? so.persons = some (.pop po) → po.sim = s
 
 /-- memory-backed: no holder of the simulation's region has an on-disk storage and no temporary
 directory has been made (`memory_config` unset, or set but not used yet) -/
@@ -292,17 +294,19 @@ def wellFormedB (h : Heap) (s : Id) : Bool :=
     decide (alGet so.pops 0 = some so.persons) &&
     match (h.get? so.persons).bind Obj.pop? with
     | none => true
-    | some po => po.members.isNone
+    | some po => po.members.isNone && decide (po.sim = s)
 
 theorem WellFormed.ofB {h : Heap} {s : Id} (hb : wellFormedB h s = true) : WellFormed h s := by
   unfold wellFormedB at hb
   simp only [Bool.and_eq_true, decide_eq_true_eq] at hb
   obtain ⟨hc, hrest⟩ := hb
-  refine ⟨hc, fun so hso => ?_, fun so po m hso hpo hm => ?_⟩
+  refine ⟨hc, fun so hso => ?_, fun so po m hso hpo hm => ?_, fun so po hso hpo => ?_⟩
   · simp only [hso, Option.bind_some, Obj.sim?, Bool.and_eq_true, decide_eq_true_eq] at hrest
     exact hrest.1
   · simp only [hso, Option.bind_some, Obj.sim?, Bool.and_eq_true, decide_eq_true_eq, hpo, Obj.pop?, hm] at hrest
-    exact absurd hrest.2 (by simp)
+    exact absurd hrest.2.1 (by simp)
+  · simp only [hso, Option.bind_some, Obj.sim?, Bool.and_eq_true, decide_eq_true_eq, hpo, Obj.pop?] at hrest
+    exact hrest.2.2
 
 def memoryBackedB (h : Heap) (s : Id) : Bool :=
   (h[s.reg]?.getD []).all (fun o => match o.holder? with | none => true | some ho => ho.disk.isNone)
@@ -346,8 +350,11 @@ Three persons in two groups; an input, a person formula, a group sum, an eternal
 has an input and a cached value when it is cloned. -/
 
 def exSys : Sys := [⟨0, .month, 0, none⟩, ⟨0, .month, 5, some (3, [⟨2, 0, .same, .same⟩])⟩,
-  ⟨1, .month, 0, some (0, [⟨1, 0, .members, .same⟩])⟩, ⟨0, .eternity, 7, none⟩]
-def exSpec : SimSpec := ⟨3, [⟨1, 2, [0, 0, 1]⟩], none⟩
+  ⟨1, .month, 0, some (0, [⟨1, 0, .members, .same⟩])⟩, ⟨0, .eternity, 7, none⟩,
+  ⟨1, .month, 0, some (0, [⟨1, 0, .membersRole [2], .same⟩, ⟨10, 0, .nbPersons [3], .same⟩])⟩,
+  ⟨0, .month, 0, some (0, [⟨1, 0, .hasRole 1 [2], .same⟩])⟩]
+/-- person 0 holds the first flattened role, person 1 the role `r1` (2), person 2 the role `r2` (3) -/
+def exSpec : SimSpec := ⟨3, [⟨1, 2, [0, 0, 1], some [0, 2, 3]⟩], none⟩
 def exM1 : Period := ⟨.month, ⟨2018, 1, 1⟩, 1⟩
 def exM2 : Period := ⟨.month, ⟨2018, 2, 1⟩, 1⟩
 def exS : Id := ⟨0, 0⟩
@@ -357,7 +364,8 @@ def exH : Heap := runSide exSys 40 exS [.setInput 0 exM1 [1, 2, 3], .calculate 1
 /-- the heap after `clone()` -/
 def exH' : Heap := (cloneSim exS false exH).2
 def exOps : List (Side × Op) :=
-  [(.clone, .calculate 2 exM1), (.orig, .setInput 0 exM1 [4, 4, 4]), (.clone, .deleteArrays 0 none),
+  [(.clone, .calculate 2 exM1), (.clone, .calculate 4 exM1), (.orig, .setInput 0 exM1 [4, 4, 4]),
+   (.orig, .calculate 4 exM1), (.orig, .calculate 5 exM1), (.clone, .deleteArrays 0 none),
    (.orig, .calculate 1 exM2), (.clone, .setTrace true), (.clone, .calculate 3 exM2)]
 
 /-- the same simulation with `MemoryConfig(max_memory_occupation=0)`: its input is stored on disk -/
